@@ -21,8 +21,10 @@ PROP = {'modules': ['SfntV.Props.C02'],
      '(accessors run after every successful decode), not proved',
      'wall-time and runtime.MemStats bounds are checked per case against generous constants '
      '(alloc <= 4096*len + 16 MiB, time <= 50 us*len + 3 s, 10 s time-out); they calibrate, they do not prove',
-     'known open cost findings: gdef.Read mark-glyph-set aliasing (#37), classdef.Read format 2 end<start ranges (#36); '
-     'suspected but not reproduced by the generators here: #26 T2 subroutine blow-up, #27 context-rule readers, #40 CFF private dict size'],
+     'known open cost findings (each replayed on every run from known_findings.jsonl): gdef.Read mark-glyph-set aliasing (#37, also '
+     'a theorem), classdef.Read format 2 backward ranges (#36), GSUB/GPOS context-rule aliasing (#27), CFF Private DICT size (#40), '
+     'Type 2 subroutine call blow-up (#26); repaired under this property: kern.Read pair count (#35), sfnt.Read glyph-name count '
+     '(Font.GlyphName panic); #6 SimpleGlyph.Decode panics are no longer seen since d60b209 (regression inputs in corpus/C02)'],
  'modelled_not_verified': [
      'parser.Parser is taken as a plain byte view of an in-memory reader (theorem C17); ReadBytes(n>1024) is the only panic site and every modelled call has a constant argument',
      'sort.Slice in header.Read is re-implemented as List.mergeSort and charged n*(log2 n+1) steps',
